@@ -52,7 +52,7 @@ def op_strategy(depth=2):
         lambda v: math.sqrt(sum(x * x for x in v)) > 0.1)
     nm = st.sampled_from(NAMES)
     T = lambda name, *a: {"op": name, "args": list(a)}
-    geo = st.one_of(
+    geo = hist.equally(
         st.tuples(c, c, c).map(lambda t: T("translate", *t)),
         st.tuples(ang, st.sampled_from(["x", "y", "z"])).map(lambda t: T("rotate", *t)),
         st.lists(f, min_size=1, max_size=3).map(lambda l: T("scale", *l)),
@@ -78,10 +78,9 @@ def op_strategy(depth=2):
             T("save_state", t[0]), T("set_pivot", list(t[1])), T("save_state", t[0])]
             + ([T("set_pivot", list(t[2]))] if t[5] else [T("translate", *t[2])])
             + [T("restore_state", t[0]), T("rotate", t[3], t[4])]})
-    state = st.one_of(state, state, state, state, state, st.just({"op": "other", "args": []}),
-                      resave)
+    state = hist.weighted((8, state), (1, st.just({"op": "other", "args": []})), (1, resave))
     if depth <= 0:
-        return st.one_of(geo, geo, state, state)
+        return hist.weighted((1, geo), (1, state))
     inner = op_strategy(depth - 1)
     ctx = st.one_of(
         st.fixed_dictionaries({"op": st.just("ctx"), "kind": st.just("current"),
@@ -90,7 +89,7 @@ def op_strategy(depth=2):
         st.fixed_dictionaries({"op": st.just("ctx"), "kind": st.just("named"), "name": nm,
                                "body": st.lists(inner, max_size=4),
                                "raise": st.sampled_from([False, False, True, "base"])}))
-    return st.one_of(geo, geo, state, state, state, ctx)
+    return hist.weighted((4, geo), (5, state), (1, ctx))
 
 
 class Runner:
